@@ -20,7 +20,10 @@ func verifFarmStep(op int) {
 	verifExpect("done", "refused")
 	// the operation runs in the middle of the pool's life or in the very block of its end height (the
 	// end-block handler of that block has not run yet: the pool is still queued and fully active)
-	h := int64(20 + 20*verifChoice("atEndHeight", 2))
+	// ... or after the pool has ended (end-block handler ran at 40: queue entry gone, budget refunded)
+	phase := verifChoice("phase", 3)
+	h := []int64{20, 40, 45}[phase]
+	afterEnd := phase == 2
 	e := newFmEnv(h)
 	zero, one := big.NewInt(0), big.NewInt(1)
 	w := verifPow2(64)
@@ -40,7 +43,14 @@ func verifFarmStep(op int) {
 	// F8: debt <= floor(rps*locked)
 	verifAssume(verifMul(debt.BigInt(), verifPow10(18)).Cmp(verifMul(rps.BigInt(), lockedA.BigInt())) <= 0)
 	st := fmState{locked: lockedA.Add(rest), total: total, remaining: remaining, rpb: rpb, rps: rps, start: 5, last: h - gap, end: 40}
+	if afterEnd {
+		st.last = 40
+		verifAssume(remaining.IsZero() && gap == 0)
+	}
 	e.seedPool(st)
+	if afterEnd {
+		e.k.DequeueActivePool(e.ctx, e.poolID, 40) // F4: an ended pool has no queue entry
+	}
 	if hasA {
 		e.setFarmer(e.a, lockedA, debt)
 	}
@@ -104,8 +114,11 @@ func verifFarmStep(op int) {
 	verifAssert(exists == (lockedA1.Sign() > 0), "F7 farmer record exists iff something is locked")
 	// C06 release rule and budget
 	released := big.NewInt(0)
-	if gap > 0 && st.locked.BigInt().Sign() > 0 {
+	if gap > 0 && st.locked.BigInt().Sign() > 0 && !afterEnd {
 		released = verifMul(rpb.BigInt(), big.NewInt(gap))
+	}
+	if afterEnd {
+		verifAssert(op == 1, "after the pool has ended only withdrawals are accepted")
 	}
 	verifAssert(verifSub(remaining.BigInt(), rule.RemainingReward.BigInt()).Cmp(released) == 0, "released = rewardPerBlock*(h-last) iff staked and h>last")
 	verifAssert(rule.TotalReward.BigInt().Cmp(total.BigInt()) == 0, "total reward unchanged")
@@ -134,7 +147,7 @@ func verifFarmStep(op int) {
 		nd := info.RewardDebt.AmountOf(fmReward).BigInt()
 		verifAssert(verifMul(nd, e18).Cmp(verifMul(rps1, lockedA1)) <= 0 && verifMul(verifAdd(nd, one), e18).Cmp(verifMul(rps1, lockedA1)) > 0, "F8 new debt = floor(rps*locked')")
 	}
-	verifAssert(pool.LastHeightDistrRewards == h, "last distribution height advances to now")
+	verifAssert(afterEnd || pool.LastHeightDistrRewards == h, "last distribution height advances to now")
 }
 
 func VerifC05_StakeStep()   { verifFarmStep(0) }
@@ -381,4 +394,48 @@ func VerifC06_DestroyStep() {
 	verifAssert(e.mod(fmLpt).Cmp(modL0) == 0 && pool.TotalLptLocked.Amount.Equal(locked), "stakes are untouched by a destroy")
 	verifAssert(pool.EndHeight == h && pool.LastHeightDistrRewards == h, "the pool ends now")
 	verifAssert(!queuedAnywhere, "F4 a destroyed pool leaves the end-height queue (it is never processed again)")
+}
+
+// C05/C06 creation: a pool created through the message server takes the whole budget (and the creation
+// fee) from the creator into the farm escrow, starts with nothing released, is queued exactly at its end
+// height, and its end height is the last block the budget can pay in full: budget >= rate * (end - start)
+// (otherwise farmers' operations fail near the end) and budget < rate * (end - start + 1).
+func VerifC06_CreateStep() {
+	verifExpect("created", "refused")
+	const h = int64(10)
+	e := newFmEnv(h)
+	zero, one := big.NewInt(0), big.NewInt(1)
+	w := verifPow2(60)
+	total := verifIntIn("total", one, w)
+	rpb := verifIntIn("rpb", one, w)
+	start := h + int64(verifChoice("startLater", 2))*7
+	e.bank.fund(e.creator, fmReward, verifIntIn("wallet", zero, verifPow2(62)))
+	fee := e.k.GetParams(e.ctx).PoolCreationFee
+	w0, m0 := e.bal(e.creator, fmReward), e.mod(fmReward)
+	msg := &types.MsgCreatePool{Description: "pool", LptDenom: fmLpt, StartHeight: start, RewardPerBlock: sdk.NewCoins(sdk.Coin{Denom: fmReward, Amount: rpb}),
+		TotalReward: sdk.NewCoins(sdk.Coin{Denom: fmReward, Amount: total}), Editable: verifBool("editable"), Creator: e.creator.String()}
+	verifAssume(msg.ValidateBasic() == nil)
+	err, _ := e.verifDeliver(func() error { _, err := NewMsgServerImpl(e.k).CreatePool(e.at(h), msg); return err })
+	w1, m1 := e.bal(e.creator, fmReward), e.mod(fmReward)
+	if err != nil {
+		verifCover("refused")
+		verifAssert(w1.Cmp(w0) == 0 && m1.Cmp(m0) == 0, "a refused creation moves nothing")
+		return
+	}
+	verifCover("created")
+	var pool types.FarmPool
+	e.k.IteratorAllPools(e.at(h), func(p types.FarmPool) { pool = p })
+	rules := e.k.GetRewardRules(e.at(h), pool.Id)
+	verifAssert(len(rules) == 1 && rules[0].TotalReward.Equal(total) && rules[0].RemainingReward.Equal(total) && rules[0].RewardPerBlock.Equal(rpb) && rules[0].RewardPerShare.IsZero(), "a new pool starts with its whole budget remaining and nothing released")
+	expFee := big.NewInt(0)
+	if fee.Denom == fmReward {
+		expFee = fee.Amount.BigInt()
+	}
+	verifAssert(verifSub(w0, w1).Cmp(verifAdd(total.BigInt(), expFee)) == 0 && verifSub(m1, m0).Cmp(total.BigInt()) == 0, "the creator pays exactly the budget (into the farm escrow) plus the creation fee")
+	blocks := big.NewInt(pool.EndHeight - pool.StartHeight)
+	verifAssert(pool.StartHeight == start && pool.EndHeight >= start, "the pool runs from its start height")
+	verifAssert(total.BigInt().Cmp(verifMul(rpb.BigInt(), blocks)) >= 0, "F5 the budget pays every block up to the end height in full")
+	verifAssert(total.BigInt().Cmp(verifMul(rpb.BigInt(), verifAdd(blocks, one))) < 0, "the pool does not end while a full block's reward is still in the budget")
+	verifAssert(e.store().Has(types.KeyActiveFarmPool(pool.EndHeight, pool.Id)), "F4 a new pool is queued exactly at its end height")
+	verifAssert(pool.TotalLptLocked.Amount.IsZero() && pool.Creator == e.creator.String(), "a new pool has no stake and belongs to its creator")
 }
